@@ -17,8 +17,10 @@ use crate::verif_oracle::*;
 pub mod cases;
 pub mod cases_cleanup;
 pub mod cases_recursive;
+pub mod cases_seq;
 pub mod cleanup;
 pub mod mapped;
+pub mod sequences;
 
 pub const N: usize = 8;
 /// All table frames lie at or above BASE; data frames used by the harnesses lie below it.
